@@ -521,9 +521,14 @@ def check_config(cfg, rng, ctr):
                                 if v2 is not None:
                                     consts.add(v2)
                             adm = set()
+                            up = set()
                             for f in inputs.uint_reps(consts, extra=(272000, 272001, (1 << 64) - 1), limit=40):
                                 if f > 272000:
                                     adm |= P.admitted(W.Key("Fee", target=target), f)
+                                    up |= P.admitted(W.Key("Fee", upward=True, target=target), f)
+                            if not adm and up:
+                                # cleared exactly, but not for a domain that keeps a single upper bound: listed mechanism
+                                wcache[("upward-only", cname, det, target)] = True
                         else:
                             adm = {0}
                         # is there an accepting walk at all (for any value)?  a contract that never approves clears nothing useful
@@ -562,11 +567,11 @@ def check_config(cfg, rng, ctr):
                     cleared_by = None
                     for cname in (t["lsig"], t["app"]):
                         if cname and no_dangerous_walk(cname, det, "self"):
-                            cleared_by = (cname, "txn")
+                            cleared_by = (cname, "txn", ["self"])
                         if cname and t["abs"] is not None and no_dangerous_walk(cname, det, ("abs", t["abs"])):
-                            cleared_by = (cname, "gtxn own index %d" % t["abs"])
+                            cleared_by = (cname, "gtxn own index %d" % t["abs"], [("abs", t["abs"])])
                         if cname and t["abs"] is not None and not cleared_by and no_dangerous_exit(cname, det, ["self", ("abs", t["abs"])]):
-                            cleared_by = (cname, "txn at some exits and gtxn own index %d at the others" % t["abs"])
+                            cleared_by = (cname, "txn at some exits and gtxn own index %d at the others" % t["abs"], ["self", ("abs", t["abs"])])
                             ctr["cleared_by_mixed_own_access"] += 1
                     for o in cfg["txns"]:
                         if o["id"] == t["id"]:
@@ -575,16 +580,18 @@ def check_config(cfg, rng, ctr):
                             if not cname:
                                 continue
                             if t["abs"] is not None and no_dangerous_walk(cname, det, ("abs", t["abs"])):
-                                cleared_by = (cname, "absolute index %d" % t["abs"])
+                                cleared_by = (cname, "absolute index %d" % t["abs"], [("abs", t["abs"])])
                             # t.index = o.index + k when o lists t at offset k
                             k = o["rel"].get(t["id"])
                             if k is not None and no_dangerous_walk(cname, det, ("rel", k)):
-                                cleared_by = (cname, "offset %+d" % k)
+                                cleared_by = (cname, "offset %+d" % k, [("rel", k)])
                     if cleared_by:
                         ctr["cleared_by_statement_checks"] += 1
                         ctr["cleared_by_walk_oracle"] += 1
                         if t["id"] in reported[det]:
+                            upward_only = det == "missing-fee-check" and any(wcache.get(("upward-only", cleared_by[0], det, tg)) for tg in cleared_by[2])
                             viols.append({"kind": "cleared-by-statement-but-reported", "key": det,
+                                          "mechanism": "fee-domain-keeps-no-lower-bound" if upward_only else None,
                                           "what": "%s reports %s although contract %s excludes the dangerous value on every accepting walk when it reads that transaction through %s" % (
                                               det, t["id"], cleared_by[0], cleared_by[1]),
                                           "config": {"txns": cfg["txns"]}})
@@ -658,7 +665,7 @@ def run_batch(spec):
             v["contracts"] = srcs
             v["txns"] = cfg["txns"]
             v["src"] = v.get("src") or common.h([srcs, cfg["txns"]])
-            v["mechanism"] = None
+            v.setdefault("mechanism", None)
             allv.append(v)
         if len(out["samples"]) < 1 and len(cfg["txns"]) >= 2:
             out["samples"].append({"txns": cfg["txns"], "contracts": {k: s[:400] for k, s in srcs.items()}})
